@@ -44,7 +44,10 @@ fn p(events: &[&str]) -> Vec<String> {
 pub fn parallel_done(dm: Dm) -> (Doc, Vec<Vec<String>>) {
     let mut a1 = st("a1", Kind::State, dm);
     a1.trans.push(tr("a1.0", "e1", &["fa"], dm));
-    let fa = st("fa", Kind::Final, dm);
+    let mut fa = st("fa", Kind::Final, dm);
+    if dm != Dm::Null {
+        fa.extra_xml.push("<donedata><param name=\"p\" expr=\"v1 + 1\"/></donedata>".to_string());
+    }
     let mut r1 = st("r1", Kind::State, dm);
     r1.children = vec![a1, fa];
     let mut b1 = st("b1", Kind::State, dm);
@@ -58,6 +61,12 @@ pub fn parallel_done(dm: Dm) -> (Doc, Vec<Vec<String>>) {
     s0.children = vec![par];
     s0.trans.push(tr("s0.0", "done.state.p", &["end"], dm));
     s0.trans.push(tr("s0.1", "e3", &["s0"], dm));
+    if dm != Dm::Null {
+        // the done event of region r1 carries the evaluated donedata
+        let mut t = tr("s0.2", "done.state.r1", &[], dm);
+        t.body.push(Stmt::Mark("dd".into(), vec![Expr::Raw("_event.data.p".into(), 2)]));
+        s0.trans.push(t);
+    }
     let end = st("end", Kind::Final, dm);
     (
         doc("core-parallel-done", dm, vec![s0, end]),
